@@ -59,7 +59,7 @@ def split_arms(body):
     i = 0
     n = len(body)
     while i < n:
-        m = re.compile(r"\s*(WriteMessage::\w+(?:\([^)]*\))?)\s*=>\s*", re.S).match(body, i)
+        m = re.compile(r"\s*(WriteMessage::\w+(?:\([^)]*\))?(?:\s*\|\s*WriteMessage::\w+(?:\([^)]*\))?)*)\s*=>\s*", re.S).match(body, i)
         if not m:
             if body[i:].strip() == "":
                 break
@@ -75,7 +75,11 @@ def split_arms(body):
             e = body.index(",", j)
             arms.append((m.group(1), body[j:e]))
             i = e + 1
-    return arms
+    out = []
+    for pat, text in arms:
+        for alt in re.split(r"\s*\|\s*(?=WriteMessage::)", pat):
+            out.append((alt.strip(), text))
+    return out
 
 
 HOOK = re.compile(r'#\[cfg\(feature = "verif"\)\]\s*verif_faults::(\w+)\(([^;]*)\)\??;')
@@ -100,6 +104,46 @@ def without_hooks(text):
 
 def norm(s):
     return re.sub(r"\s+", " ", s).strip()
+
+
+ROLLBACK_HELPER = re.compile(
+    r"fn (\w+)\s*<\s*(\w+)\s*>\s*\(\s*(\w+)\s*:\s*(?:std::result::)?Result<\s*\2\s*,\s*rusqlite::Error\s*>\s*,\s*conn\s*:\s*&Connection\s*,?\s*\)"
+    r"\s*->\s*(?:std::result::)?Result<\s*\2\s*,\s*rusqlite::Error\s*>\s*\{\s*match \3\s*\{\s*Ok\((\w+)\)\s*=>\s*Ok\(\4\)\s*,"
+    r"\s*Err\((\w+)\)\s*=>\s*\{\s*conn\.execute\(\"ROLLBACK\", \[\]\)\?;\s*Err\(\5\)\s*,?\s*\}\s*,?\s*\}\s*\}")
+
+
+def inline_rollback_helpers(src):
+    """a helper that is exactly `match step { Ok(x) => Ok(x), Err(e) => { conn.execute("ROLLBACK", [])?; Err(e) } }`
+    (the error exit of a statement group moved into a function) is expanded at its call sites
+    `Self::helper(EXPR, conn)?;`  ->  `if let Err(e) = EXPR { conn.execute("ROLLBACK", [])?; return Err(e); }`
+    so that the skeleton is read off the same shape whether or not the exit was factored out"""
+    for hm in list(ROLLBACK_HELPER.finditer(src)):
+        name = hm.group(1)
+        call = re.compile(r"(?:let\s+_\s*=\s*)?Self::%s\s*\(" % re.escape(name))
+        out, i = "", 0
+        while True:
+            cm = call.search(src, i)
+            if not cm:
+                out += src[i:]; break
+            # matching parenthesis of the call
+            depth, k = 0, cm.end() - 1
+            while k < len(src):
+                if src[k] == "(": depth += 1
+                elif src[k] == ")":
+                    depth -= 1
+                    if depth == 0: break
+                k += 1
+            inner = src[cm.end():k]
+            am = re.match(r"^(.*),\s*conn\s*,?\s*$", inner, flags=re.S)
+            tm = re.compile(r"\s*\?\s*;").match(src, k + 1)
+            if not am or not tm:
+                out += src[i:k + 1]; i = k + 1; continue
+            expr = " ".join(am.group(1).split())
+            expr = re.sub(r"\(\s+", "(", re.sub(r",?\s+\)", ")", expr))
+            out += src[i:cm.start()] + 'if let Err(e) = %s {\n conn.execute("ROLLBACK", [])?;\n return Err(e);\n }' % expr
+            i = tm.end()
+        src = out
+    return src
 
 
 def extract_process_batch_write(src):
@@ -285,6 +329,11 @@ def extract_ack_loop(src):
         raise Refuse("a third branch in the acknowledgement `match result`")
     res = {}
     for want_ok, b in ((True, okb), (False, errb)):
+        # bindings in front of the loop (e.g. the error text computed once) do not acknowledge anything
+        while True:
+            lm = re.match(r"\s*let\b[^;{}]*;", b)
+            if not lm or re.search(r"\b(send|blocking_send)\s*\(", lm.group(0)): break
+            b = b[lm.end():]
         fm = re.match(r"\s*for msg in buffer\s*\{\s*match msg\s*\{", b)
         if not fm:
             raise Refuse("acknowledgement branch is not `for msg in buffer { match msg { .. } }`")
@@ -370,7 +419,7 @@ def main():
     repo, gen = sys.argv[1], sys.argv[2]
     out = os.path.join(gen, "WriterSkeleton.v")
     try:
-        src = strip_comments(open(os.path.join(repo, "src/database/sqlite_database.rs")).read())
+        src = inline_rollback_helpers(strip_comments(open(os.path.join(repo, "src/database/sqlite_database.rs")).read()))
         seq, arms, marks_rb, commit_rb, points_top = extract_process_batch_write(src)
         acks, point_ack = extract_ack_loop(src)
         stmts, start_pt = extract_stmts(repo)
